@@ -4,7 +4,8 @@
 // One case = NewHashSlotTable(count, phys) followed by a history of operations on
 // the real pkg/hashslot table.  After every operation the harness observes the
 // operation's result and the complete table (Version, HashSlotCount, Lookup of
-// every hash slot, ActiveMigrations); an unchanged table is printed as None.
+// every hash slot, ActiveMigrations), printed relative to the previous observation
+// (SSame / SDelta / SFull, assignments run-length encoded).
 package main
 
 import (
@@ -484,6 +485,7 @@ func (g *genState) plan(apply bool) {
 func (g *genState) skew() {
 	n := g.count()
 	if n == 0 {
+		g.plan(true)
 		return
 	}
 	to := g.slotNZ()
